@@ -28,7 +28,7 @@ func init() {
 // runC16 is the shard driver: the register of a process cannot be reset, so
 // every history runs in its own child process (this binary, sub-mode C16H).
 func runC16(c *mon.Ctx) {
-	c.Rule("one CHILD PROCESS per history (the register cannot be reset). A history is a seeded random sequence of 12..45 operations over: RegisterProfile(new name, P1- or P2-based - the latter also through a claims type embedding TWO structs, a mixin without profile field first and P2Claims second -, sharing the JSON profile member of its base) / re-register an existing name (base profiles, earlier extras) / register a profile whose claims type has no profile field / has no json tag on it (then register the same name properly) / whose profile field is identified by its name and followed by other fields (register snapshot must record THAT field's JSON member), NewClaims(registered | unregistered), DecodeClaimsFromCBOR / JSON (token of any known or not-yet-registered profile, documents declaring two profiles at once under the two profile members, and documents carrying a profile name under the OTHER base profile's member), mutate one instance (setters, writes through its pointer fields and byte slices, container Add/Replace, canonical-name overwrite), observe another. 0..8 extra profiles per history. Offline-style trace checker with model = set of successfully registered names: after EVERY registration attempt the register snapshot (hook H1) must equal the model (failed attempt: unchanged; successful: grown by exactly that entry) and a probe battery (NewClaims + CBOR decode + JSON decode for every name of the universe, registered or not) must be unchanged for every name other than the one just registered and must follow the model for that one; every created/decoded instance is a new pointer with its own container / profile pointers and its observation is unaffected by any mutation of another instance; every JSON dispatch is repeated 40x and all repetitions must agree on (error?, type, canonical profile, observation); hook H3 records the register visit order of each dispatch. An operation that is in flight for 20 s while its process uses no CPU ends the process (goroutine dump) and is reported as call-blocked-forever. Inconclusive if fewer than 2 distinct visit orders were seen. distinct_nontrivial = distinct operation-kind sequences")
+	c.Rule("one CHILD PROCESS per history (the register cannot be reset). A history is a seeded random sequence of 12..45 operations over: RegisterProfile(new name, P1- or P2-based - the latter also through a claims type embedding TWO structs, a mixin without profile field first and P2Claims second -, sharing the JSON profile member of its base) / re-register an existing name (base profiles, earlier extras) / register a profile whose claims type has no profile field (also: a field NAMED Profile that is a private-use claim under another CBOR key) / a profile-2 extension that adds such a field next to the embedded claims (must register with the inherited eat-profile member) / has no json tag on it (then register the same name properly) / whose profile field is identified by its name and followed by other fields (register snapshot must record THAT field's JSON member), NewClaims(registered | unregistered), DecodeClaimsFromCBOR / JSON (token of any known or not-yet-registered profile, documents declaring two profiles at once under the two profile members, and documents carrying a profile name under the OTHER base profile's member), mutate one instance (setters, writes through its pointer fields and byte slices, container Add/Replace, canonical-name overwrite), observe another. 0..8 extra profiles per history. Offline-style trace checker with model = set of successfully registered names: after EVERY registration attempt the register snapshot (hook H1) must equal the model (failed attempt: unchanged; successful: grown by exactly that entry) and a probe battery (NewClaims + CBOR decode + JSON decode for every name of the universe, registered or not) must be unchanged for every name other than the one just registered and must follow the model for that one; every created/decoded instance is a new pointer with its own container / profile pointers and its observation is unaffected by any mutation of another instance; every JSON dispatch is repeated 40x and all repetitions must agree on (error?, type, canonical profile, observation); hook H3 records the register visit order of each dispatch. An operation that is in flight for 20 s while its process uses no CPU ends the process (goroutine dump) and is reported as call-blocked-forever. Inconclusive if fewer than 2 distinct visit orders were seen. distinct_nontrivial = distinct operation-kind sequences")
 	self, err := os.Executable()
 	if err != nil {
 		c.Inconclusive("cannot locate own executable: " + err.Error())
@@ -279,6 +279,22 @@ func runC16History(c *mon.Ctx) {
 		}
 	}
 	{
+		// documents without an exactly spelled profile member but with several CASE
+		// VARIANTS of it carrying different values: member names are case-sensitive,
+		// so these declare nothing - and whatever the outcome is, it is the same on
+		// every call
+		for vi, variant := range [][2][2]string{
+			{{"Eat-Profile", model.P2Name}, {"EAT-PROFILE", "http://example.com/never-registered"}},
+			{{"Psa-Profile", model.P1Name}, {"PSA-PROFILE", "PSA_IOT_PROFILE_NEVER"}},
+			{{"EAT-profile", cands[0].name}, {"eat-Profile", model.P2Name}},
+		} {
+			a := g.Valid(1 + vi%2)
+			a.Profile = nil
+			ms := append(a.JSONMembers(), model.Member{Name: variant[0][0], Value: `"` + variant[0][1] + `"`}, model.Member{Name: variant[1][0], Value: `"` + variant[1][1] + `"`})
+			universe = append(universe, &c16Cand{name: fmt.Sprintf("(profile member only in case variants #%d)", vi), base: 1 + vi%2, cbor: refcbor.Encode(a.WireCBOR()), json: model.MembersJSON(ms)})
+		}
+	}
+	{
 		// a P1 token without explicit profile
 		a := g.Valid(1)
 		a.Profile = nil
@@ -447,6 +463,12 @@ func runC16History(c *mon.Ctx) {
 					// a well-formed but unusual profile: its profile field is found by NAME and is not the last field
 					name = fmt.Sprintf("http://example.com/by-name/%d", step)
 					p, what, expectOK = extprof.ByNameProfile{Name: name}, "by-name", true
+					if g.R.Intn(2) == 0 {
+						// extends profile 2 and adds a private-use claim in a field NAMED Profile:
+						// the profile member is still the inherited eat-profile
+						name = fmt.Sprintf("http://example.com/shadow/%d", step)
+						p, what = extprof.ShadowProfile{Name: name}, "shadow"
+					}
 				case kind == 3:
 					name = fmt.Sprintf("http://example.com/defective/%d", step)
 					if g.R.Intn(2) == 0 {
@@ -469,6 +491,10 @@ func runC16History(c *mon.Ctx) {
 						}
 					}
 					p, what = extprof.NoJSONTagProfile{Name: name}, "no-json-tag"
+					if g.R.Intn(3) == 0 {
+						// a field named Profile that is a private-use claim (other CBOR key): no profile field
+						p, what = extprof.DeviceProfileProfile{Name: name}, "no-profile-field"
+					}
 				}
 				if p == nil {
 					return
@@ -486,6 +512,10 @@ func runC16History(c *mon.Ctx) {
 					reg[name] = entry{"extprof.ByNameProfile", extprof.ByNameJSONTag}
 					c.Count("registrations-ok")
 					c.Count("registrations-ok:by-name")
+				} else if err == nil && what == "shadow" {
+					reg[name] = entry{"extprof.ShadowProfile", "eat-profile"}
+					c.Count("registrations-ok")
+					c.Count("registrations-ok:shadowed-profile-field")
 				} else if err == nil {
 					np := p.(extprof.NumberedProfile)
 					tag := "eat-profile"
@@ -516,7 +546,7 @@ func runC16History(c *mon.Ctx) {
 						return
 					}
 				}
-				if err == nil && what != "by-name" {
+				if err == nil && what != "by-name" && what != "shadow" {
 					np := p.(extprof.NumberedProfile)
 					want := typeFor(np.Base)
 					if !strings.HasPrefix(now["new|"+name], want+"|"+name+"|") {
